@@ -254,9 +254,23 @@ def g_protocol(out):
             if isinstance(node, ast.Call) and isinstance(node.func, ast.Name) and node.func.id == 'next':
                 nexts.append('%s:%d %s' % (rel, node.lineno, ast.unparse(node)))
     ok = len(nexts) == 1 and 'readFromStream(substrate)' in nexts[0]
-    ob(out, 'proto::decoders#D1.only-listed-next-call', ok,
+    # ... and what that single next() may hand out besides octets -- the underrun marker of a source that has nothing at the
+    # moment -- is turned into "no octets" right after it (C07: the remainder is octets)
+    guarded = False
+    tree = parse('pyasn1/codec/ber/decoder.py')
+    for node in ast.walk(tree):
+        for fld in ('body', 'orelse'):
+            blk = getattr(node, fld, None)
+            if isinstance(blk, list):
+                for a, b in zip(blk, blk[1:]):
+                    if isinstance(a, ast.Try) and any('tail = next(readFromStream(substrate))' == ast.unparse(x) for x in a.body) \
+                            and isinstance(b, ast.If) and ast.unparse(b.test) == 'isinstance(tail, SubstrateUnderrunError)' \
+                            and [ast.unparse(x) for x in b.body] == ['tail = null'] and not b.orelse:
+                        guarded = True
+    ob(out, 'proto::decoders#D1.only-listed-next-call', ok and guarded,
        'next() consumes a generator without forwarding; the only allowed site is the tail read of the one-shot '
-       'Decoder.__call__ (in-memory substrate): %s' % nexts, witness={'sites': nexts})
+       'Decoder.__call__, whose underrun marker is replaced by no octets: %s; guarded: %s' % (nexts, guarded),
+       witness={'sites': nexts, 'guarded': guarded})
 
 
 def g_mark(out):
